@@ -148,7 +148,9 @@ Theorem c15_transfer_eq : forall a b la lb ca cb gla glb gca gcb sla slb sca scb
 Proof.
   intros a b la lb ca cb gla glb gca gcb sla slb sca scb H1 H2 H3 H4 H5 H6 H7 H8 H9 H10 H11 H12.
   unfold run. vm_compute. rewrite ?H1, ?H2, ?H3, ?H4. vm_compute. rewrite ?H5, ?H6, ?H7, ?H8. vm_compute.
-  rewrite ?H9, ?H10, ?H11, ?H12. vm_compute. reflexivity.
+  rewrite ?H9, ?H10, ?H11, ?H12. vm_compute. fold Nat.eqb.
+  (* whatever the shape of the body (a conjunction, an early `return false`): decide by cases on the two comparisons *)
+  destruct (Nat.eqb sla slb); destruct (Nat.eqb sca scb); reflexivity.
 Qed.
 
 Theorem c15_basic_specifier_eq : forall a b pa pb,
